@@ -10,6 +10,26 @@ replaced while it is carried.  Sends are serialised (one `send_message` / `send_
 simulated thread), nothing replies (no handler is registered on the protocol objects), so only one side transmits at a
 time - the statement's precondition.
 
+Schedules: seed 0 = run-to-block; PRNG schedules {"seed","switch"} (thread switches at shim operations); PRNG schedules
+with PARKED LINE-LEVEL PREEMPTIONS {"pprob","hot"}: inside the hand-over code (secsgem/common/block_send_info.py:
+resolve/wait between the protocol receiver thread and the sending application thread; ProtocolDispatcher.queue_block /
+_dispatcher_thread_function between the protocol receiver thread and the dispatcher thread; the handshake functions
+_process_send_queue / _process_received_data) a thread loses the processor before a source line with probability pprob
+and gets it back only when every other thread has blocked, so that e.g. the waiter of a send result can overtake the
+thread that publishes it. The corruption cases (generated and the systematic sweep) run under all three schedule
+classes.
+
+Back-to-back family ("rush"): ONE application thread issues 2-4 sends right behind each other (still serialised, one
+side transmits); the line is carried by `carry_holding`, which - unlike Line.transfer, which lets every thread run until
+it blocks between two line events - keeps a thread that was parked by a line-level preemption parked for up to `hold`
+consecutive line rounds while the line makes progress without it (a descheduled dispatcher thread does not get the
+processor back because a byte crosses the line) and releases it at once when the line stalls. Preemptions come from
+the PRNG and/or from explicit sites {"sites": [[function, k]]} = before the k-th line executed in that function. A
+systematic part enumerates EVERY single site k of the six hand-over functions for two message shapes x two hold
+lengths. Oracle there: every send returns; all True => transcript is ENQ/EOT/reference block/ACK per block and
+nothing else; each send that returned True => exactly one identical message_received at the peer once the line is
+quiet (nothing is sent afterwards that could flush a stranded block).
+
 Oracle (independent: frames from vf.ref.secs1, bodies from vf.ref.e5, handshake characters from SEMI E4):
   * per block of every message whose line was not yet disturbed: ENQ (sender) -> EOT (receiver) -> exactly the
     reference block bytes (sender, after EOT) -> ACK (receiver), in the emitted transcript;
@@ -52,6 +72,8 @@ from __future__ import annotations
 from hypothesis import strategies as st
 
 from vf import secsirig
+from vf.detsim import kernel as _kernel
+from vf.detsim.patch import simulation
 from vf.ref import e5, secs1
 from vf.run import Failure
 
@@ -67,7 +89,10 @@ RULE = (
     "fields or send_stream_function; body sizes 0, 1, 243, 244, 245, 488, 489, ~700, 2440 and random 0..760 bytes, i.e. "
     "1..10 blocks), per message a line plan (whole blocks | single bytes | uniform chunks | cuts after the length byte, "
     "inside the header, at the header/data boundary, before and between the checksum bytes | random cuts; virtual delays "
-    "0..1.2 s; 0..30 scheduling steps between chunks or full settle), an optional thread schedule seed, and at most one "
+    "0..1.2 s; 0..30 scheduling steps between chunks or full settle), a thread schedule (run-to-block | PRNG switches at "
+    "shim operations | PRNG switches + parked line-level preemptions with probability 0.1/0.25/0.5 per line inside the "
+    "send-result hand-over (block_send_info.py), the dispatcher hand-over (queue_block, _dispatcher_thread_function) and "
+    "the handshake functions), and at most one "
     "fault: one byte of one block replaced (length byte only downwards; header, data, checksum positions with a "
     "generated xor), optionally followed by fresh messages or a retry of the same message. Oracle: line transcript per "
     "block ENQ/EOT/reference block/ACK; send True => exactly one identical message_received at the peer; corrupted block "
@@ -75,9 +100,18 @@ RULE = (
     "delivered once, intact' is demanded. Non-trivial = a multi-block message, or a plan that splits a block, or a "
     "corruption; distinct by case hash. Plus a systematic sweep: every byte position of every block (two xor values; the "
     "length byte with every smaller value) of one message with a 0- and a 2-byte body (quick) and a 244- and 245-byte "
-    "body (thorough), each followed by a fresh message in the other or the same direction."
+    "body (thorough), each followed by a fresh message in the other or the same direction (a quarter of the sweep under "
+    "parked preemptions in the send-result hand-over). Back-to-back family: one application thread sends 2-4 messages "
+    "(0..489 bytes) right behind each other, whole bursts or uniform chunks, 0-3 explicit preemption sites (function, "
+    "k-th executed line) and/or PRNG preemptions, parked threads held parked for up to 0/3/6/12/40/100 line rounds "
+    "while the line progresses; plus the enumeration of every single site k of _dispatcher_thread_function, queue_block, "
+    "resolve, wait, _process_received_data, _process_send_queue x 2 message shapes (two single-block messages | one "
+    "two-block message; thorough: + three messages) x hold 100 (and 4 for the dispatcher function; thorough: all). Oracle there: all sends return; all True => "
+    "reference transcript; True => delivered exactly once, identical, with no later traffic."
 )
 EXHAUSTIVE_NOTE = (
+    "single-preemption sweep: every executed line k of the six hand-over functions as the one parked preemption site, x 2 "
+    "message shapes (x 2 hold lengths for the dispatcher thread), run-to-block otherwise. "
     "fault sweep: all 12/14 header+data+checksum positions x 2 xor values and all 10/12 smaller length values of the 13- and "
     "15-byte blocks (quick); additionally all positions and all smaller length values of the blocks of a 244-byte and a "
     "245-byte message (thorough). Everything else is sampled."
@@ -86,7 +120,8 @@ ASSUMPTIONS = [
     "SECS-I over TCP (SecsITcpSettings) runs the same SecsIProtocol line code as the serial connection class, which is not executable here (no serial device); both call on_connected/on_data/on_disconnected the same way",
     "vf/ref/secs1.py block layout and checksum typed in from SEMI E4; handshake characters ENQ 05, EOT 04, ACK 06, NAK 15",
     "the line is causal and loses nothing: every byte an endpoint emits is delivered to the other, in order; chunking and delays are generated; only one byte of one block is ever altered",
-    "thread interleavings are sampled at shim operations (lock/event/queue/socket calls) and by a generated number of scheduling steps between chunks, not enumerated",
+    "thread interleavings are sampled at shim operations (lock/event/queue/socket calls), by a generated number of scheduling steps between chunks and by parked line-level preemptions inside the hand-over functions; only single preemption sites are enumerated",
+    "a thread that lost the processor at a source line may stay descheduled while bytes cross the line (rush family: up to `hold` line rounds); code whose correctness relies on two source lines never being separated by a thread switch is treated as racy (DESIGN 3.3)",
     "hang verdict: sender thread not finished, nothing in flight, no emission during 3 virtual seconds (the line protocol has no timers)",
 ]
 BUDGET_S = {"quick": 100, "thorough": 900}
@@ -100,6 +135,48 @@ UPWARD = "length byte corrupted upwards (block never arrives; no T1/T2 timers)"
 # observation "send call never returns after the fault" into a failure bucket of its own.
 AFTERMATH_HANG_IS_VIOLATION = False
 COINCIDENCE = "length byte corrupted downwards but the shortened frame has a matching checksum"
+
+
+# ---------------------------------------------------------------------------------------------- world / schedules
+
+# hot sets for parked line-level preemptions (function names or "path/suffix.py" = every function of that file): the
+# send-result hand-over between the protocol receiver thread and the application thread, the hand-over of accepted
+# blocks from the protocol receiver thread to the dispatcher thread, the line handshake functions themselves
+HOT_RESULT = ["common/block_send_info.py"]
+HOT_DISPATCH = ["_dispatcher_thread_function", "queue_block"]
+HOT_SETS = [
+    HOT_RESULT,
+    HOT_RESULT + HOT_DISPATCH,
+    HOT_RESULT + ["_process_send_queue", "_process_received_data", "send_message"],
+    HOT_DISPATCH + ["_process_received_data", "_receiver_thread_function"],
+]
+
+
+def make_world(sched):
+    """The simulated world of one case: PRNG schedule {"seed","switch"}, parked line-level preemptions drawn by the PRNG
+    {"pprob","hot"} and/or at explicit sites {"sites": [[function name, k-th traced line of that function], ...]}."""
+    return simulation(
+        sched_seed=sched.get("seed", 0),
+        switch_prob=sched.get("switch", 0.0),
+        preempts=tuple((n, k) for n, k in sched.get("sites", ())),
+        preempt_prob=sched.get("pprob", 0.0),
+        hot=tuple(sched.get("hot", ())),
+        system_counter=sched.get("syscnt", 1000),
+    )
+
+
+def sched_strategy():
+    return st.one_of(
+        st.just({"seed": 0}),
+        st.builds(lambda s, p: {"seed": s, "switch": p}, st.integers(1, 2**31), st.sampled_from([0.05, 0.3, 0.7])),
+        st.builds(
+            lambda s, p, q, h: {"seed": s, "switch": p, "pprob": q, "hot": list(h)},
+            st.integers(1, 2**31),
+            st.sampled_from([0.0, 0.05, 0.3]),
+            st.sampled_from([0.1, 0.25, 0.5]),
+            st.sampled_from(HOT_SETS),
+        ),
+    )
 
 
 # ---------------------------------------------------------------------------------------------- case -> reference
@@ -244,12 +321,7 @@ def message_strategy(draw, idx, allow_big):
 def case_strategy(draw):
     a_host = draw(st.booleans())
     dev = [draw(st.sampled_from([0, 1, 0x7FFF, 300])), draw(st.sampled_from([0, 1, 0x7FFF, 300]))]
-    sched = draw(
-        st.one_of(
-            st.just({"seed": 0}),
-            st.builds(lambda s, p: {"seed": s, "switch": p}, st.integers(1, 2**31), st.sampled_from([0.05, 0.3, 0.7])),
-        )
-    )
+    sched = draw(sched_strategy())
     if draw(st.integers(0, 5)) == 0:
         sched = dict(sched, syscnt=0xFFFFFFFE)
     with_fault = draw(st.integers(0, 8)) < 5
@@ -378,7 +450,7 @@ def run_case(case, obs=None):
         cls.append("fault-in:" + ("only-block" if nb == 1 else "first-block" if fault["blk"] == 0 else "last-block" if fault["blk"] == nb - 1 else "middle-block"))
         if fault["pos"] == 0:
             obs["upward_alternatives"] = 255 - frame[0]
-    with secsirig.make_world(case.get("sched", {})) as w:
+    with make_world(case.get("sched", {})) as w:
         line = secsirig.Line(w, a_is_host=bool(case["a_host"]), dev_a=case["dev"][0], dev_b=case["dev"][1])
         if not line.connect():
             return Failure("setup-failed", case, w.sim.blocked_report(), "both endpoints connected to the line")
@@ -559,6 +631,10 @@ def classify(case, obs):
         cls.append("both-directions-in-one-case")
     if case["sched"].get("seed"):
         cls.append("random-schedule")
+    if case["sched"].get("pprob"):
+        cls.append("parked-preemptions")
+        if case.get("fault") is not None and "excluded" not in obs and "common/block_send_info.py" in case["sched"].get("hot", ()):
+            cls.append("parked-preemptions:send-result-hand-over-of-a-corrupted-block")
     if case["sched"].get("syscnt"):
         cls.append("system-counter-wraps")
     if any(r["retry_of"] is not None for r in ref):
@@ -611,7 +687,7 @@ def sweep_cases(size, quick):
                 pl = {"every": 1, "only": [blk]} if k % 8 == 1 else {"cuts": [[flt["pos"], flt["pos"] + 1]]}
             if flt["pos"] == 0 and k % 3 == 0:
                 pl = dict(pl, extra=[[blk, flt["newlen"] + 3]])
-            sched = {"seed": 0} if k % 4 else {"seed": 1000 + k, "switch": 0.3}
+            sched = {"seed": 1000 + k, "switch": 0.3} if k % 4 == 0 else {"seed": 2000 + k, "switch": 0.05, "pprob": 0.3, "hot": HOT_RESULT} if k % 4 == 2 else {"seed": 0}
             yield {"a_host": bool(k % 2), "dev": [0, 0], "sched": sched, "msgs": [dict(base, **{"from": "A" if k % 3 else "B"}, plan=pl), dict(follow, **{"from": "B" if k % 5 else "A"})], "fault": flt}
 
 
@@ -637,7 +713,7 @@ def run_pair(case, obs=None):
     sender = pr["from"]
     msgs = [{"from": sender, "via": "message", "kind": "raw", "n": n, "fill": (pr["fill"] + 17 * i) & 0xFF, "sf": [1, 1], "dev": 1, "r": 0, "w": 0, "sys": 0x9000 + i, "plan": {}} for i, n in enumerate(pr["sizes"])]
     ref = resolve({"msgs": msgs, "a_host": case["a_host"], "dev": case["dev"], "sched": case.get("sched", {})})
-    with secsirig.make_world(case.get("sched", {})) as w:
+    with make_world(case.get("sched", {})) as w:
         line = secsirig.Line(w, a_is_host=bool(case["a_host"]), dev_a=case["dev"][0], dev_b=case["dev"][1])
         if not line.connect():
             return Failure("setup-failed", case, w.sim.blocked_report(), "both endpoints connected to the line")
@@ -686,6 +762,239 @@ def run_pair(case, obs=None):
     return None
 
 
+# --------------------------------------------------------------------------------------------
+# ONE application thread sends 2-4 messages right behind each other (serialised sends, one side transmits) while
+# threads of either endpoint may be parked at a source line for several line round trips: a preempted thread does not
+# get the processor back just because a byte crosses the line. `Line.transfer` settles every thread between two line
+# events, so a thread parked by a line-level preemption is always resumed before the next byte moves; the carrier below
+# keeps parked threads parked for up to `hold` consecutive line rounds as long as the line makes progress without them
+# (added after a seeded change that lost the dispatcher wake-up of a block queued while the dispatcher thread was
+# between "queue is empty" and clearing its trigger - the message was ACKed, the send call returned True, nothing was
+# delivered unless a later block woke the dispatcher again).
+
+
+def _pump_holding_parked(sim):
+    """Run every runnable thread until it blocks, but leave parked threads parked. True if a thread is still parked."""
+
+    def stop():
+        parked = False
+        for t in sim.threads:
+            if t.state in (_kernel.RUNNABLE, _kernel.SPIN):
+                return False
+            if t.state == _kernel.PARKED:
+                parked = True
+        return parked
+
+    return sim.pump(stop=stop) == "stop"
+
+
+def carry_holding(line, thr, every, hold, max_rounds=20000):
+    """Carry the line while `thr` (a simulated application thread) sends; whole bursts or uniform chunks of `every` bytes.
+
+    Between two line events every runnable thread runs until it blocks; threads parked by a line-level preemption stay
+    parked for at most `hold` consecutive rounds and are released at once when the line stalls without them."""
+    sim = line.sim
+    t0 = len(line.transcript)
+    pending = {"A": [], "B": []}
+    info = {"chunks": 0, "held_rounds": 0, "longest_hold": 0}
+    held = idle = rounds = 0
+    while True:
+        rounds += 1
+        if rounds > max_rounds:
+            info["status"] = "runaway"
+            break
+        if held < hold:
+            still = _pump_holding_parked(sim)
+        else:
+            sim.settle()
+            still = False
+        held = held + 1 if still else 0
+        if still:
+            info["held_rounds"] += 1
+            info["longest_hold"] = max(info["longest_hold"], held)
+        emitted = list(line._collect())  # noqa: SLF001
+        for side, data in emitted:
+            dst = line.other(side)
+            if len(data) > 1 and every > 0:
+                pending[dst] += [data[x : x + every] for x in range(0, len(data), every)]
+            else:
+                pending[dst].append(data)
+        delivered = False
+        for side in ("A", "B"):
+            if pending[side]:
+                chunk = pending[side].pop(0)
+                try:
+                    line.ep(side).sock.send(chunk)
+                except OSError as exc:
+                    info["status"] = "line-closed"
+                    info["error"] = repr(exc)
+                    break
+                line.delivered.append((side, chunk, sim.now))
+                info["chunks"] += 1
+                delivered = True
+                break
+        if "status" in info:
+            break
+        if emitted or delivered:
+            idle = 0
+            continue
+        if still:  # the line waits for a parked thread: give it the processor back
+            held = hold
+            continue
+        if thr.state == "DONE":
+            info["status"] = "done"
+            break
+        idle += 1
+        if idle > 3:
+            info["status"] = "hang"
+            break
+        sim.advance(1.0)
+    info["emitted"] = [(s_, d) for (s_, d, _) in line.transcript[t0:]]
+    info["blocked"] = sim.blocked_report() if info["status"] != "done" else []
+    return info
+
+
+@st.composite
+def rush_strategy(draw):
+    sizes = draw(st.lists(st.sampled_from([0, 0, 1, 7, 244, 245, 489]), min_size=2, max_size=4))
+    hot = draw(st.sampled_from([HOT_DISPATCH, HOT_DISPATCH, HOT_DISPATCH + HOT_RESULT, HOT_SETS[3], HOT_SETS[2]]))
+    n_blocks = sum(secs1.n_blocks(n) for n in sizes)
+    # explicit sites: the k-th line executed inside one of the hand-over functions (counted over both endpoints); a
+    # dispatcher pass is about 9 lines, queue_block 2, resolve/wait 2 each
+    site = st.one_of(
+        st.tuples(st.just("_dispatcher_thread_function"), st.integers(1, 6 + 10 * n_blocks)),
+        st.tuples(st.just("_dispatcher_thread_function"), st.integers(1, 6 + 10 * n_blocks)),
+        st.tuples(st.sampled_from(["queue_block", "resolve", "wait"]), st.integers(1, 2 * n_blocks)),
+        st.tuples(st.just("_process_received_data"), st.integers(1, 14 * n_blocks)),
+    )
+    sites = draw(st.lists(site, min_size=0, max_size=3, unique=True))
+    pprob = draw(st.sampled_from([0.0, 0.0, 0.05, 0.1, 0.2])) if sites else draw(st.sampled_from([0.05, 0.1, 0.2, 0.35]))
+    return {
+        "rush": {
+            "from": draw(st.sampled_from(["A", "B"])),
+            "sizes": sizes,
+            "fill": draw(st.integers(0, 255)),
+            "w": draw(st.integers(0, 1)),
+            "every": draw(st.sampled_from([0, 0, 0, 1, 16, 100])),
+            "hold": draw(st.sampled_from([0, 3, 6, 12, 40, 40, 100, 100])),
+        },
+        "a_host": draw(st.booleans()),
+        "dev": [draw(st.integers(0, 32767)), draw(st.integers(0, 32767))],
+        "sched": {
+            "seed": draw(st.integers(1, 2**31)),
+            "switch": draw(st.sampled_from([0.0, 0.05, 0.3])),
+            "pprob": pprob,
+            "hot": list(hot) if pprob else [],
+            "sites": [list(x) for x in sites],
+        },
+    }
+
+
+def run_rush(case, obs=None):
+    ru = case["rush"]
+    sender = ru["from"]
+    sender_is_host = case["a_host"] == (sender == "A")
+    msgs = [
+        {"from": sender, "via": "message", "kind": "raw", "n": n, "fill": (ru["fill"] + 29 * i) & 0xFF, "sf": [1, 1], "dev": 1, "r": 0 if sender_is_host else 1, "w": ru.get("w", 0), "sys": 0x9100 + i, "plan": {}}
+        for i, n in enumerate(ru["sizes"])
+    ]
+    ref = resolve({"msgs": msgs, "a_host": case["a_host"], "dev": case["dev"], "sched": case.get("sched", {})})
+    cls = obs.setdefault("classes", []) if obs is not None else []
+    with make_world(case.get("sched", {})) as w:
+        line = secsirig.Line(w, a_is_host=bool(case["a_host"]), dev_a=case["dev"][0], dev_b=case["dev"][1])
+        if not line.connect():
+            return Failure("setup-failed", case, w.sim.blocked_report(), "both endpoints connected to the line")
+        ep = line.ep(sender)
+        recv = line.other(sender)
+        calls = [_build_call(ep, r) for r in ref]
+        results = []
+
+        def fn():
+            for c in calls:
+                results.append(c())
+
+        thr = w.sim.spawn(fn, "sender-" + sender)
+        info = carry_holding(line, thr, ru["every"], ru["hold"])
+        post = line.quiesce()
+        n_parks = len(w.sim.preempt_hits)
+        if obs is not None:
+            obs["parks"] = n_parks
+        cls.append("rush:back-to-back-sends")
+        cls.append("rush:blocks:" + ("2" if sum(len(r["frames"]) for r in ref) == 2 else "3-4" if sum(len(r["frames"]) for r in ref) <= 4 else ">=5"))
+        cls.append("rush:preemptions:" + ("explicit-sites" if case["sched"].get("sites") else "") + ("+" if case["sched"].get("sites") and case["sched"].get("pprob") else "") + ("prng" if case["sched"].get("pprob") else ""))
+        cls.append("rush:parks:" + ("0" if not n_parks else "1-3" if n_parks <= 3 else ">=4"))
+        cls.append("rush:thread-held-parked-over-line-rounds:" + ("0" if not info["longest_hold"] else "1-3" if info["longest_hold"] <= 3 else ">=4"))
+        if any(name == "_dispatcher_thread_function" for name, _, _ in w.sim.preempt_hits) and info["longest_hold"] >= 4:
+            cls.append("rush:dispatcher-parked+hold>=4-rounds")
+        if info["status"] != "done":
+            if info["status"] == "hang":
+                return Failure("rush:send-hangs", case, {"line": _show(_merge(info["emitted"])[-4:]), "blocked": info["blocked"], "results": list(results)}, "every send call returns")
+            return Failure(f"rush:line-{info['status']}", case, info.get("error"), "line stays open")
+        if thr.error is not None:
+            return Failure("rush:send-raises", case, repr(thr.error), "True/False")
+        if all(r is True for r in results):
+            exp = []
+            for r in ref:
+                for fr in r["frames"]:
+                    exp += [(sender, bytes([ENQ]), "enq"), (recv, bytes([EOT]), "eot"), (sender, fr, "block"), (recv, bytes([ACK]), "ack")]
+            got = _merge(info["emitted"])
+            for k, (side, data, label) in enumerate(exp):
+                if k >= len(got):
+                    return Failure(f"rush:transcript:missing-{label}", case, _show(got[-4:]), _show([(side, data)]))
+                if got[k] != (side, data):
+                    return Failure(f"rush:transcript:expected-{label}", case, {"at": k, "line": _show(got[max(0, k - 2) : k + 2])}, _show([(side, data)]))
+            if len(got) > len(exp) or post:
+                return Failure("rush:transcript:bytes-after-last-ack", case, _show(got[len(exp) :] + post), "nothing")
+        else:
+            cls.append("clean-send-reported-failure")
+        recs = line.ep(recv).received
+        ok_sys = set()
+        for r, ok in zip(ref, results):
+            if ok is not True:
+                continue
+            ok_sys.add(r["fields"]["sys"])
+            hits = [x for x in recs if x["sys"] == r["fields"]["sys"]]
+            if len(hits) != 1:
+                last = r is ref[-1]
+                return Failure(
+                    "rush:success-but-delivered-" + ("less" if not hits else "more") + "-than-once",
+                    case,
+                    {"results": list(results), "message": ref.index(r), "is_last_message": last, "delivered": [_rec(x) for x in recs], "parks": [list(h) for h in w.sim.preempt_hits[-6:]]},
+                    "exactly one message_received per successful send",
+                )
+            hdr_diff = [f for f in secs1.MSG_FIELDS if hits[0][f] != r["fields"][f]]
+            if hdr_diff:
+                return Failure("rush:delivered-header-differs:" + "+".join(hdr_diff), case, _rec(hits[0]), r["fields"])
+            if hits[0]["body"] != r["body"].hex():
+                return Failure("rush:delivered-body-differs", case, _bodydiff(bytes.fromhex(hits[0]["body"]), r["body"]), "identical body")
+        if all(r is True for r in results):
+            extra = [x for x in recs if x["sys"] not in ok_sys] + line.ep(sender).received
+            if extra:
+                return Failure("rush:unexpected-delivery", case, _rec(extra[0]), "only messages that were sent")
+        if w.sim.thread_errors:
+            return Failure("rush:thread-exception", case, w.sim.thread_errors[:2], "no uncaught exception")
+    return None
+
+
+# systematic part of the rush family: ONE parked preemption at the k-th executed line of one hand-over function, for every
+# k the run reaches, the parked thread held over the following line rounds (hold 100 = until the line stalls or the
+# sends are through, hold 4 = about one block; the quick tier uses hold 4 for the dispatcher function only: the line
+# needs the threads that run the other five functions, stalls without them and releases them at once whatever the hold)
+# - every single place where one of these threads can lose the processor
+RUSH_SWEEP_FUNCS = ["_dispatcher_thread_function", "queue_block", "resolve", "wait", "_process_received_data", "_process_send_queue"]
+RUSH_SWEEP_SHAPES = [[0, 0], [245], [1, 244, 0]]
+RUSH_SWEEP_KMAX = 150
+
+
+def rush_sweep_case(func, shape, hold, k):
+    return {
+        "rush": {"from": "A" if k % 2 else "B", "sizes": list(shape), "fill": 0x40 + k, "w": int(k % 3 == 0), "every": 0, "hold": hold},
+        "a_host": bool((k // 2) % 2),
+        "dev": [0, 0],
+        "sched": {"seed": 0, "sites": [[func, k]]},
+    }
+
+
 def plan(tier, seed):
     quick = tier == "quick"
     per = 100 if quick else 1250
@@ -693,8 +1002,10 @@ def plan(tier, seed):
     for size in (0, 2) if quick else (245, 244, 0, 2):
         of = 1 if size < 100 else 8
         tasks += [("sweep", {"size": size, "shard": i, "of": of}) for i in range(of)]
+    tasks += [("rushsweep", {"func": fn, "shape": sh, "hold": hold}) for fn in RUSH_SWEEP_FUNCS for sh in (RUSH_SWEEP_SHAPES[:2] if quick else RUSH_SWEEP_SHAPES) for hold in ((100, 4) if fn == "_dispatcher_thread_function" or not quick else (100,))]
     tasks += [("gen", {"shard": i, "n": per}) for i in range(16)]
     tasks += [("pair", {"shard": i, "n": 12 if quick else 300}) for i in range(4)]
+    tasks += [("rush", {"shard": i, "n": 30 if quick else 700}) for i in range(8)]
     return tasks
 
 
@@ -708,6 +1019,33 @@ def run_task(name, kw, ctx):
             return f
 
         ctx.hyp(pair_strategy(), pbody, kw["n"], seed_offset=700 + kw["shard"])
+        return
+    if name == "rushsweep":
+        beyond = 0  # A and B alternate as sender: stop after two consecutive k that no thread reached
+        for k in range(1, RUSH_SWEEP_KMAX + 1):
+            if ctx.out_of_time() or beyond >= 2:
+                break
+            case = rush_sweep_case(kw["func"], kw["shape"], kw["hold"], k)
+            obs = {}
+            f = run_rush(case, obs)
+            if not obs.get("parks"):
+                beyond += 1
+                ctx.exclude("rush sweep: preemption site beyond the last executed line of the function")
+                continue
+            beyond = 0
+            ctx.count("rushsweep")
+            ctx.case(case, True, obs.get("classes", []) + [f"rushsweep:{kw['func']}", f"rushsweep:hold:{kw['hold']}"])
+            ctx.report(f)
+        return
+    if name == "rush":
+
+        def rbody(case):
+            obs = {}
+            f = run_rush(case, obs)
+            ctx.case(case, True, obs.get("classes", []))
+            return f
+
+        ctx.hyp(rush_strategy(), rbody, kw["n"], seed_offset=800 + kw["shard"])
         return
     body = body_fn(ctx)
     if name == "gen":
@@ -725,4 +1063,6 @@ def run_task(name, kw, ctx):
 def replay(case, ctx):
     if "pair" in case:
         return run_pair(case)
+    if "rush" in case:
+        return run_rush(case)
     return run_case(case)
